@@ -13,12 +13,14 @@ ASSUMPTIONS = ["tolerance 100 L^2 eps min(cond_inf(L), cond_inf(D^-1 L D^-1)) re
 
 
 def run(ctx):
-    ss = S.generate(ctx, 14 if ctx.quick else 120, 3 if ctx.quick else 6, max_e=6 if ctx.quick else 8,
-                    max_loops=3 if ctx.quick else 5, routings_per_graph=2)
+    ss = S.generate(ctx, 14 if ctx.quick else 120, 4 if ctx.quick else 8, max_e=6 if ctx.quick else 8,
+                    max_loops=3 if ctx.quick else 5, routings_per_graph=2, kinds=("uniform", "uniform", "corner", "tiny_xi"), )
     # chain-like graphs with sparse face bases in random order (zero off-diagonal L entries with fill-in)
     ss += S.generate(ctx, 8 if ctx.quick else 40, 2 if ctx.quick else 4, max_e=10, max_loops=4, routings_per_graph=4,
                      names=["banana4", "banana5", "ladder3x", "banana4", "ladder3x"])
     ss += S.generate(ctx, 2 if ctx.quick else 10, 2, max_e=6, max_loops=5, routings_per_graph=2, names=["banana6"])
+    # as many edges as loops (bouquets of self-loops): the signature is a square matrix; non-symmetric bases
+    ss += S.generate(ctx, 4 if ctx.quick else 16, 2, max_e=4, max_loops=3, routings_per_graph=4, names=["tadpole_pair", "rose3"], mass_mode="all")
     S.run(ss)
     SC.corr_matrix(ctx, ss)
     byg = {}
